@@ -34,6 +34,8 @@ type DCase struct {
 	Expect string            `json:"expect,omitempty"` // witness: the signature it must fail with
 	// NoExample: only the gen command (hostile stream: the example scaffolding does not depend on the mapping)
 	NoExample bool `json:"no_example,omitempty"`
+	// NoPack: the design has more than one service or is meaningful only as a whole (hostile stream)
+	NoPack bool `json:"no_pack,omitempty"`
 	// Dir: directory of the design inside the batch module (set by runBatch)
 	Dir string `json:"dir,omitempty"`
 }
